@@ -93,12 +93,31 @@ def _work_inner(hist_idx: tuple):
     out = []
     pre = None
     for oi, op in enumerate(A):
-        ctx = stepper.run(history, op, pre, _G["pre_hook"])
+        try:
+            ctx = stepper.run(history, op, pre, _G["pre_hook"])
+        except Exception as e:
+            from mc.gridx import raised_in_library
+
+            lib = raised_in_library(e)
+            if not lib:
+                raise
+            # replaying the history / taking the snapshot made the library raise on a sequence it had accepted: a finding
+            out.append((oi, False, type(e).__name__, f"libcrash:{oi}", [(f"LIB:raised-inside-the-harness-step:{type(e).__name__}:{lib}", f"{e}"[:250])], {}))
+            continue
         pre = ctx.pre
         viols = []
         for m in _G["monitors"]:
-            for fp, desc in m(ctx) or ():
-                viols.append((fp, desc))
+            try:
+                for fp, desc in m(ctx) or ():
+                    viols.append((fp, desc))
+            except Exception as e:
+                from mc.gridx import raised_in_library
+
+                lib = raised_in_library(e)
+                if not lib:
+                    raise
+                # a library call made by the monitor on a sequence the library had accepted raised: a finding, not a harness error
+                viols.append((f"LIB:raised-inside-the-oracle:{type(e).__name__}:{lib}", f"{m.__name__}: {e}"[:250]))
         out.append((oi, ctx.exc is None, type(ctx.exc).__name__ if ctx.exc else None,
                     ctx.post.hkey(with_calls=_G["key_calls"]), viols, dict(ctx.act)))
     return hist_idx, out
@@ -202,11 +221,25 @@ def replay(payload: dict, monitors: list, *, with_calls: bool = False, pre_hook=
     w = World(payload["world"])
     history = tuple(_tup(o) for o in payload["history"])
     op = _tup(payload["op"])
-    ctx = Step(w, with_calls).run(history, op, None, pre_hook)
+    from mc.gridx import raised_in_library
+
+    try:
+        ctx = Step(w, with_calls).run(history, op, None, pre_hook)
+    except Exception as e:
+        lib = raised_in_library(e)
+        if not lib:
+            raise
+        return [Violation(f"LIB:raised-inside-the-harness-step:{type(e).__name__}:{lib}", f"{e}"[:250], payload, size=len(history))]
     out = []
     for m in monitors:
-        for fp, desc in m(ctx) or ():
-            out.append(Violation(fp, desc, payload, size=len(history)))
+        try:
+            for fp, desc in m(ctx) or ():
+                out.append(Violation(fp, desc, payload, size=len(history)))
+        except Exception as e:
+            lib = raised_in_library(e)
+            if not lib:
+                raise
+            out.append(Violation(f"LIB:raised-inside-the-oracle:{type(e).__name__}:{lib}", f"{m.__name__}: {e}"[:250], payload, size=len(history)))
     return out
 
 
